@@ -52,6 +52,7 @@ Definition label_of (l : list N) : option xlabel :=
     | 4%N => Some (XMoveOut t') | 5%N => Some (XSend t' a') | 6%N => Some (XStartDrop t') | 7%N => Some (XStartUniq t')
     | 8%N => Some (XStartUoc t') | 9%N => Some (XStep t' a')
     | 10%N => Some (XStartUoc t')          (* make_mut: the same two programs; see [cow] below *)
+    | 11%N => Some (XStartUniq t')         (* get_mut: the uniqueness program; the grant is a [&mut T] *)
     | _ => None
     end
   | _ => None
@@ -80,9 +81,12 @@ Definition step_class (s : xstate) (l : xlabel) : N * N * N * N :=
 (** [Arc::make_mut] runs the same two programs as [unwrap_or_clone] - the uniqueness test, then either exclusive access
     or "clone the value and give the handle up" - but when it is granted it RETURNS (a [&mut T]: the caller may write
     and later lets go), where [unwrap_or_clone] goes on to move the value out.  The machine does not distinguish the
-    two; this stream does, by remembering which threads' running (or last) call is a make_mut ([cow]). *)
+    two; this stream does, by remembering which threads' running (or last) call is a make_mut ([cow]).
+    [Arc::get_mut] is to [try_unique] what make_mut is to unwrap_or_clone: the uniqueness program alone, and a grant
+    that is a [&mut T] (it can be written through and let go, not turned into the value); it is remembered in the
+    same list. *)
 Definition is_cow (cow : list nat) (t : nat) : bool := existsb (Nat.eqb t) cow.
-Definition is_cow_raw (raw : list N) : bool := match raw with 10%N :: _ => true | _ => false end.
+Definition is_cow_raw (raw : list N) : bool := match raw with 10%N :: _ | 11%N :: _ => true | _ => false end.
 
 (** inside unwrap_or_clone the grant is not visible from outside: the function is still running, with the handle it
     was given *)
@@ -122,7 +126,7 @@ Fixpoint summary (cow : list nat) (s : xstate) (n t : nat) : list N :=
     by make_mut is a [&mut T]: it cannot be turned into the value *)
 Definition granted_by_cow (cow : list nat) (s : xstate) (t : nat) : bool :=
   let x := xget s t in
-  match x_pc x, x_mode x, x_ret x with [], XGranted, RGone => is_cow cow t | _, _, _ => false end.
+  match x_pc x, x_mode x with [], XGranted => is_cow cow t | _, _ => false end.
 
 Definition allowed (cow : list nat) (s : xstate) (l : xlabel) : bool :=
   match l with
@@ -145,7 +149,7 @@ Definition encode_label (l : xlabel) : list N :=
   | XStartUoc t => [8; n t; 0] | XStep t i => [9; n t; n i]
   end%N.
 Definition encode_raw (raw : list N) (l : xlabel) : list N :=
-  if is_cow_raw raw then 10%N :: tl (encode_label l) else encode_label l.
+  if is_cow_raw raw then hd 10%N raw :: tl (encode_label l) else encode_label l.
 
 Definition try_step (P : progs) (cow : list nat) (s : xstate) (l : xlabel) : option xstate :=
   if allowed cow s l then xstep P s l else None.
